@@ -664,7 +664,20 @@ std::string sqf::parser::preprocessor::impl_default::instance::handle_macro(::sq
                     {
                         preprocessorfileinfo copy = local_fileinfo;
                         copy.off = lastargstart;
-                        auto handled_param = handle_arg(runtime, copy, original_fileinfo, local_fileinfo.off, param_map);
+                        // Comments and line continuations are not part of the argument: hand over what next() yields
+                        preprocessorfileinfo arg_fileinfo(local_fileinfo.pathinf);
+                        arg_fileinfo.line = copy.line;
+                        arg_fileinfo.col = copy.col;
+                        char arg_c;
+                        while (copy.off < local_fileinfo.off && (arg_c = copy.next()) != '\0')
+                        {
+                            if (copy.off > local_fileinfo.off)
+                            { // (a comment in front of the delimiter got skipped together with the delimiter)
+                                break;
+                            }
+                            arg_fileinfo.content.push_back(arg_c);
+                        }
+                        auto handled_param = handle_arg(runtime, arg_fileinfo, original_fileinfo, arg_fileinfo.content.size(), param_map);
                         params.emplace_back(std::move(handled_param));
 #ifdef DF__SQF_PREPROC__TRACE_MACRO_RESOLVE
                         std::cout << "\x1B[33m[PREPROCESSOR-RS]\033[0m" <<
